@@ -29,7 +29,7 @@ vars == <<l, rej, st, sync, pend, acc, ref, skipping>>
 
 Chk(cond, msg) == IF cond THEN <<>> ELSE <<msg>>
 
-EncRec(p) == VarintOfInt(Len(p)) \o p          \* record {P: bytes}
+EncRec(p) == VarintOfInt(Len(p)) \o p          \* record {P: bytes}; a record type without fields (kind "empty") encodes to <<>>
 Buffered(ps) == Len(ConcatAll(ps))
 
 \* ---- prefix of the reference output modulo sync markers ----
@@ -64,7 +64,7 @@ Expect(e) ==
            \o Chk(~h.ok \/ (MetaHas(h.meta, KeySchema) /\ MetaHas(h.meta, KeyCodec) /\ MetaGet(h.meta, KeyCodec) = e.codecBytes), "header metadata lacks schema or names the wrong codec"),
            <<>>>>
     [] e.op = "enc_encode" ->
-         LET p2 == Append(pend, EncRec(e.p)) IN
+         LET p2 == Append(pend, IF e.kind = "empty" THEN <<>> ELSE EncRec(e.p)) IN
          IF Buffered(p2) >= e.block THEN <<BlockFails(e, ConcatAll(p2), Len(p2)), <<>>>>
          ELSE <<Chk(e.delta = <<>>, "bytes written although the block size is not reached"), p2>>
     [] e.op = "enc_flush" ->
